@@ -958,7 +958,31 @@ impl Gen {
         })
     }
 
+    /// Exact equality of two same-shaped matrices whose entries are LARGE (2^23 .. 2^24: neighbouring
+    /// single-precision floats are 1 apart there) and differ by exactly 1 in one position: the answer is
+    /// false, whatever tolerance relative to the magnitude of the entries would say (seeded C03-u1); the
+    /// same pair without the change must compare equal.
+    fn equality_large(&mut self) -> OpCall {
+        let (r, c) = (self.ru(1, 3), self.ru(1, 3));
+        let sign = if self.p(0.3) { -1 } else { 1 };
+        let d: Vec<i64> = (0..r * c).map(|_| sign * self.ri(8_388_608, 9_999_000)).collect();
+        let mut d2 = d.clone();
+        let same = self.p(0.25);
+        if !same {
+            let k = self.ru(0, r * c - 1);
+            d2[k] += if self.p(0.5) { 1 } else { -1 };
+        }
+        let s1 = self.any_slot();
+        let s2 = self.slot_except(&[s1]);
+        self.pending.push_back(OpCall::new("from_array", 0, 0, s2, vec![r as i64, c as i64], d2, vec![]));
+        self.pending.push_back(oc("eq", s1, s2, 0, vec![]));
+        OpCall::new("from_array", 0, 0, s1, vec![r as i64, c as i64], d, vec![])
+    }
+
     fn equality(&mut self, meta: &[Meta]) -> Option<OpCall> {
+        if self.mode == Codec::Plain && !self.ladder && self.p(0.15) {
+            return Some(self.equality_large());
+        }
         if self.p(0.35) {
             return self.equality_same_size(meta);
         }
